@@ -12,6 +12,7 @@ import (
 
 	"verif/harness/core"
 	"verif/harness/gen"
+	"verif/harness/model"
 	"verif/harness/obs"
 	"verif/harness/run"
 )
@@ -50,6 +51,43 @@ func runC07(c *core.Ctx) {
 			wo.Names = gen.NameOpts{Unicode: true, Spaces: true, Slash: true, Punct: ".,'()&+-_", MinLen: 1, MaxLen: 45}
 		}
 		w := newWorld(r, wo)
+		if i%6 == 4 && len(w.Basics) > 0 && w.Conf == "" {
+			// an element whose name carries an invisible direction mark (what a right-to-left keyboard leaves next to
+			// digits and punctuation), next to the same name without it: two elements, in every report alike
+			b := w.Basics[0]
+			rs := []rune(b)
+			marked := string(rs[:1]) + string([]rune{0x200f, 0x200e, 0x061c, 0x202b, 0x2067}[i/6%5]) + string(rs[1:])
+			ren := func(n string) string {
+				if n == b {
+					return marked
+				}
+				return n
+			}
+			for bi := range w.Book {
+				w.Book[bi].Name = ren(w.Book[bi].Name)
+				for ei := range w.Book[bi].Ents {
+					w.Book[bi].Ents[ei].Name = ren(w.Book[bi].Ents[ei].Name)
+				}
+			}
+			for di := range w.Log {
+				for ei := range w.Log[di].Ents {
+					w.Log[di].Ents[ei].Name = ren(w.Log[di].Ents[ei].Name)
+				}
+			}
+			// and the unmarked name once more, in the first recipe and in the first day
+			if len(w.Book) > 0 {
+				w.Book[0].Ents = append(w.Book[0].Ents, gen.Ent{Name: b, Val: gen.Half(3)})
+			}
+			if len(w.Log) > 0 {
+				w.Log[0].Ents = append(w.Log[0].Ents, gen.Ent{Name: b, Val: gen.Half(2)})
+			}
+			w.Basics = append([]string{marked}, w.Basics...)
+			w.Res = model.Resolve(w.Book)
+			w.Abs = model.AbsPaths(w.Book)
+			w.BookText = gen.RenderBook(w.Book, nil)
+			w.LogText = gen.RenderLog(w.Log, w.Layout, nil)
+			c.Count("tuples_with_a_direction_mark_in_an_element_name", 1)
+		}
 		srv.Write(w.Files())
 		today := gen.Date{Y: 2021, M: 3, D: 1}
 		pre := []string{"--no-color", "-d", "food.yaml", "-l", "log.yaml", "--today", today.Format(w.Layout)}
